@@ -135,9 +135,14 @@ static void FinishCmd(int idx) {
   if (!s.depfile.empty()) {
     vfs::disk->Write(s.depfile, DepfileText(s));
   }
-  if (s.msvc)
+  if (s.msvc && !s.notes_last)
     for (const string& h : s.hidden) rc.output += "Note: including file: " + s.Spelled(h) + "\n";
   rc.output += s.print;
+  if (s.msvc && s.notes_last) {
+    if (!rc.output.empty() && rc.output.back() != '\n') rc.output += "\n";
+    for (size_t i = 0; i < s.hidden.size(); ++i)
+      rc.output += "Note: including file: " + s.Spelled(s.hidden[i]) + (i + 1 < s.hidden.size() ? "\n" : "");
+  }
   rc.status = 0;
   Record(Event::kFinish, idx, 0);
 }
